@@ -7,7 +7,7 @@ PROP = 'C11'
 def run(tier, seed):
     return netcheck.run_net(PROP, tier, seed,
         profiles=[('lra', 150, 1500, 40)],
-        rule='(0) every transition of the state graph of the implementation-shaped model LraCreate (new_var(lin) with its two lookups, the substitution of the slack variables by their rows, the constant case and the fresh slack variable with the bounds / value of its expression; new_lt / new_leq / new_geq / new_gt as written - the bound with its infinitesimal, the constant answers decided by the bounds of the expression and of the slack variable, the assertion cache -, new_eq as the conjunction built by the sat core; spec/LraCreateGen.tla prints one test per transition) replayed on the real lra_theory: the variable / literal answered, the number of propositional variables and the bounds and value of every arithmetic variable compared with the model after every call; deviating executions are decided by NetworkTrace; '
+        rule='(00) every transition of the implementation-shaped model LraImpl (assertion, bound, pivot, push / pop; spec/LraGen.tla) replayed on lra_theory: the literals of the relations requested at the start keep their meaning under every later assertion - a lemma that decides a requested literal must be entailed; (0) every transition of the state graph of the implementation-shaped model LraCreate (new_var(lin) with its two lookups, the substitution of the slack variables by their rows, the constant case and the fresh slack variable with the bounds / value of its expression; new_lt / new_leq / new_geq / new_gt as written - the bound with its infinitesimal, the constant answers decided by the bounds of the expression and of the slack variable, the assertion cache -, new_eq as the conjunction built by the sat core; spec/LraCreateGen.tla prints one test per transition) replayed on the real lra_theory: the variable / literal answered, the number of propositional variables and the bounds and value of every arithmetic variable compared with the model after every call; deviating executions are decided by NetworkTrace; '
              'seeded requests of <, <=, =, >=, > between linear expressions (constants, repeated and cancelling variables, '
              'derived variables that are basic in the tableau, rational coefficients) before and after root-level constraints '
              'tightened the bounds; a returned constant must be entailed in every model (Fourier-Motzkin), a returned literal '
@@ -18,6 +18,7 @@ def run(tier, seed):
                 ('MC_LraCreate', 'MC_LraCreate_B.cfg', 'MC_LraCreate_B.cfg',
                  'the same model, two requests in a row from a pool of expressions that share slack variables and assertions (same expression with another operator / constant, scaled, negated, over a derived variable)', None)],
         lracreate=(['LraCreateGen_A.cfg', 'LraCreateGen_B.cfg'], ['LraCreateGen_A.cfg', 'LraCreateGen_B.cfg']),
+        lraimpl=(['LraGen_A.cfg'], ['LraGen_A.cfg', 'LraGen_B.cfg']),
         release_too=True,
         assumptions=['at most 6 theory atoms and 5 arithmetic variables per execution'])
 
